@@ -138,6 +138,25 @@ Theorem C16_statm_per_method :
 Proof. exact statm_per_method. Qed.
 Print Assumptions C16_statm_per_method.
 
+(* 4b. attrs elements need not be strings.  Any collection containing at least one element that is not
+   an acceptable name -- str not in the table, int, None, bool, bytes, float, NaN, tuple, instance of any
+   class; one or many, duplicated, mixed with acceptable names, in any order -- is rejected with ValueError
+   with the state untouched (no block entered, nothing read); TypeError stays reserved for a
+   non-collection; a collection of acceptable names only behaves as in C16_as_dict_spec. *)
+Theorem C16_as_dict_rejects_any_invalid : forall valid resolve q ns n,
+  In n ns -> name_valid valid n = false ->
+  as_dict_any valid resolve (PColl ns) q = (q, Exc ValueError).
+Proof. exact as_dict_rejects_any_invalid. Qed.
+Print Assumptions C16_as_dict_rejects_any_invalid.
+
+Theorem C16_as_dict_any_other : forall valid resolve q,
+  as_dict_any valid resolve PNotColl q = (q, Exc TypeError) /\
+  as_dict_any valid resolve PNone q = as_dict valid resolve ANone q /\
+  (forall ns, (forall n, In n ns -> name_valid valid n = true) ->
+     as_dict_any valid resolve (PColl ns) q = as_dict valid resolve (AColl (strs_of (dedup_n ns []))) q).
+Proof. exact as_dict_any_other. Qed.
+Print Assumptions C16_as_dict_any_other.
+
 (* ... against the table of attribute names dumped from the code on every run (coq/Gen/C16_Tables.v):
    the modelled names are accepted, the action / navigation methods are rejected with ValueError
    before anything is queried, and the table has no duplicates *)
